@@ -643,6 +643,60 @@ def lemmas_c12(workdir):
 GROUPS['c12'] = lemmas_c12
 
 # ------------------------------------------------------------------------------------------------
+# C09-W1: solver-chosen fractional amounts for the ResourceManager (witness check, not a proof)
+# ------------------------------------------------------------------------------------------------
+def lemmas_c09(workdir):
+    """The ResourceManager keeps the usage of a pool as a running float sum.  z3 (QF_FP) is asked for doubles a, b, C such
+    that both reservations fit, and after releasing both (i) the running sum is not 0, (ii) the running sum makes the
+    guard `C - usage < C` of _can_fulfill_request refuse a request for the whole capacity.  The real ResourceManager is run
+    on each witness: with nothing outstanding the usage must be 0 and the whole capacity must be grantable."""
+    base = {'name': 'C09-W1 usage bookkeeping on solver-chosen fractional amounts', 'solver': 'z3 %s (QF_FP, sat queries)' % z3.get_version_string(),
+            'queries': 0, 'solver_s': 0.0,
+            'assumptions': ['C09-W1 is a witness check: fractional amounts are chosen by the solver such that the float round trip '
+                            '((a+b)-a)-b is non-zero / large enough to refuse a full-capacity request; nothing is claimed for other '
+                            'fractional amounts (the CrossHair analyses cover integer amounts)']}
+    t0 = time.time()
+    rne, dbl = z3.RNE(), z3.Float64()
+    zero = z3.FPVal(0.0, dbl)
+    witnesses = []
+    for first, refuse in (('a', True), ('b', True), ('a', False)):
+        s = z3.Solver()
+        s.set('timeout', 90000)
+        a, b, cap = z3.FP('a', dbl), z3.FP('b', dbl), z3.FP('cap', dbl)
+        for x in (a, b, cap):
+            s.add(z3.fpGEQ(x, z3.FPVal(0.015625, dbl)), z3.fpLEQ(x, z3.FPVal(64.0, dbl)))
+        u1 = z3.fpAdd(rne, zero, a)
+        s.add(z3.Not(z3.fpLT(z3.fpSub(rne, cap, zero), a)), z3.Not(z3.fpLT(z3.fpSub(rne, cap, u1), b)))     # both are granted
+        u2 = z3.fpAdd(rne, u1, b)
+        x1, x2 = (a, b) if first == 'a' else (b, a)
+        r = z3.fpSub(rne, z3.fpSub(rne, u2, x1), x2)
+        s.add(z3.fpLT(z3.fpSub(rne, cap, r), cap) if refuse else z3.Not(z3.fpEQ(r, zero)))
+        base['queries'] += 1
+        if s.check() == z3.sat:
+            m = s.model()
+            witnesses.append((first, _fp_value(m[a]), _fp_value(m[b]), _fp_value(m[cap])))
+    base['solver_s'] = round(time.time() - t0, 2)
+    witnesses += [('a', 0.1, 0.2, 0.6), ('a', 0.5, 0.25, 1.0)]          # the classic decimals and an exact dyadic control
+    bad = []
+    for first, a, b, cap in witnesses:
+        v = _run_witness('C09', {'kind': 'c09_residue', 'first': first}, {'a': a, 'b': b, 'cap': cap})
+        if v is not None:
+            bad.append(((first, a, b, cap), v))
+    r = dict(base, translator_validated_on=len(witnesses))
+    if bad:
+        bad.sort(key=lambda x: 0 if 'REFUSED' in x[1]['detail'] else 1)      # show a witness with the visible consequence first
+        r.update(status='violated', replay=bad[0][1]['replay'], name='C09-W1 ' + bad[0][1]['label'], detail=bad[0][1]['detail'],
+                 all_labels=sorted({x[1]['label'] for x in bad}))
+    else:
+        r.update(status='proved', detail='witness-ok (not a proof): after taking and releasing the solver-chosen amounts '
+                                         f'{witnesses} the usage is 0 and the whole capacity can be reserved')
+    return [r]
+
+
+GROUPS['c09'] = lemmas_c09
+
+
+# ------------------------------------------------------------------------------------------------
 # C19-W1: solver-chosen floating-point intervals for the periodic sensor (witness check, not a proof)
 # ------------------------------------------------------------------------------------------------
 def lemmas_c19(workdir):
